@@ -1,6 +1,7 @@
 SPECIFICATION Spec
 CONSTANTS
   GuardReserved = TRUE
+  GuardNul = TRUE
   UseEscapedPath = FALSE
   MaxOps = 2
   MaxSegs = 3
